@@ -9,6 +9,7 @@ pub ghost struct World { pub _w: int }
 #[verifier::external_body]
 pub fn singleton_save__KEY_CONFIG(storage: &mut dyn Storage, v: &Config) -> (r: StdResult<()>)
     ensures
+        r is Ok,   // serde serialisation of these plain types cannot fail (T4)
         r is Ok ==> final(storage).view() == (Store { config_set: true, ..old(storage).view() }),
         r is Err ==> final(storage).view() == old(storage).view(),
 { unimplemented!() }
@@ -21,6 +22,7 @@ pub fn item_may_load__TOKEN_LIST(storage: &dyn Storage) -> (r: StdResult<Option<
 #[verifier::external_body]
 pub fn item_save__TOKEN_LIST(storage: &mut dyn Storage, v: &Vec<AssetInfo>) -> (r: StdResult<()>)
     ensures
+        r is Ok,   // serde serialisation of these plain types cannot fail (T4)
         r is Ok ==> final(storage).view() == (Store { token_list: Some(v@), ..old(storage).view() }),
         r is Err ==> final(storage).view() == old(storage).view(),
 { unimplemented!() }
